@@ -166,6 +166,45 @@ theorem double_overload_agrees_with_integer_overload (r : Rel) (a m : Int) (k : 
 /-- infinities: every Integer is below +∞ and above −∞ -/
 theorem infinities (a : Int) : cmpD a (.inf false) = some (-1) ∧ cmpD a (.inf true) = some 1 := by simp [cmpD]
 
+/-- `Integer(double)` is the truncation toward zero of the exact value: the integer z with |z| ≤ |value| < |z| + 1 and the sign of
+    the value — for every finite double, in particular for ±2^63, ±2^64 and beyond (no machine-word detour) -/
+theorem ofFl_is_truncation (m e : Int) :
+    ∃ z, ofFl (.fin m e) = some z ∧
+      (0 ≤ e → z = m * 2 ^ e.toNat) ∧
+      (e < 0 → z = Int.tdiv m (2 ^ (-e).toNat) ∧ z.natAbs * 2 ^ (-e).toNat ≤ m.natAbs ∧ m.natAbs < (z.natAbs + 1) * 2 ^ (-e).toNat) := by
+  by_cases h : 0 ≤ e
+  · exact ⟨m * 2 ^ e.toNat, by simp [ofFl, h], fun _ => rfl, fun h' => absurd h (by omega)⟩
+  · refine ⟨Int.tdiv m (2 ^ (-e).toNat), by simp [ofFl, h], fun h' => absurd h' h, fun _ => ⟨rfl, ?_, ?_⟩⟩
+    · have hk : (0 : Nat) < 2 ^ (-e).toNat := Nat.pos_of_ne_zero (by positivity)
+      rw [Int.natAbs_tdiv, Int.natAbs_pow]
+      exact Nat.div_mul_le_self _ _
+    · have hk : (0 : Nat) < 2 ^ (-e).toNat := Nat.pos_of_ne_zero (by positivity)
+      rw [Int.natAbs_tdiv, Int.natAbs_pow]
+      have := Nat.lt_div_mul_add (a := m.natAbs) hk
+      calc m.natAbs < m.natAbs / 2 ^ (-e).toNat * 2 ^ (-e).toNat + 2 ^ (-e).toNat := this
+        _ = (m.natAbs / 2 ^ (-e).toNat + 1) * 2 ^ (-e).toNat := by ring
+
+/-- conversion to double keeps the leading bits: 0 ≤ |a| − mantissa·2^exponent < 2^exponent, and it is exact below 2^53 -/
+theorem toDyTrunc_spec (a : Int) :
+    (toDyTrunc a).2.1 * 2 ^ (toDyTrunc a).2.2 ≤ a.natAbs ∧ a.natAbs < ((toDyTrunc a).2.1 + 1) * 2 ^ (toDyTrunc a).2.2 ∧
+    (a.natAbs < 2 ^ 53 → (toDyTrunc a).2.1 = a.natAbs ∧ (toDyTrunc a).2.2 = 0) ∧ (toDyTrunc a).1 = decide (a < 0) := by
+  simp only [toDyTrunc]
+  set sh := (if a.natAbs = 0 then 0 else a.natAbs.log2 + 1) - 53 with hsh
+  have hk : (0 : Nat) < 2 ^ sh := Nat.pos_of_ne_zero (by positivity)
+  refine ⟨Nat.div_mul_le_self _ _, ?_, ?_, trivial⟩
+  · have := Nat.lt_div_mul_add (a := a.natAbs) hk
+    calc a.natAbs < a.natAbs / 2 ^ sh * 2 ^ sh + 2 ^ sh := this
+      _ = (a.natAbs / 2 ^ sh + 1) * 2 ^ sh := by ring
+  · intro hlt
+    have hbits : (if a.natAbs = 0 then 0 else a.natAbs.log2 + 1) ≤ 53 := by
+      split
+      · omega
+      · rename_i hne
+        have := (Nat.log2_lt hne).mpr hlt
+        omega
+    have h0 : sh = 0 := by omega
+    rw [h0]; simp
+
 /-- `fact` is the factorial -/
 theorem fact_eq_factorial (n : Nat) : fact n = n.factorial := by
   induction n with
